@@ -90,6 +90,10 @@ def spec_current(ctx, shape, info, state, phase):
         L = shape["nodes"][1]["name"]
         v_term = volt - rs * 0  # the load current does not depend on the rail voltage
         return sysh.load_val(info, L, phase)
+    if kinds == ["Source", "RLoad"]:
+        # the only probe whose battery current depends on the battery's present voltage AND impedance: i = V / (rs + R)
+        L = shape["nodes"][1]["name"]
+        return Div(Abs(volt), Abs(rs) + sysh.load_val(info, L, phase))
     if kinds == ["Source", "Converter", "ILoad"]:
         C, L = shape["nodes"][1]["name"], shape["nodes"][2]["name"]
         P = info[C]["P"]
@@ -108,7 +112,7 @@ def e_stepping(ctx, shape, K=2):
     ctx.assume(cutoff >= 0)
     ctx.nice(cutoff, [3.5, 3.0])
     imax = None
-    if not rs_zero:
+    if not rs_zero and shape["nodes"][1]["kind"] == "ILoad":  # (a resistive load cannot overload the battery)
         L = shape["nodes"][1]["name"]
         imax = 0.0
         for ph in (list(durations) or [""]):
@@ -185,6 +189,7 @@ PROBES = {
     "src-iload-sleep": S(N("B", "Source", only=()), N("L", "ILoad", "B", phases=["b"], only=("iis",)), phases=["a", "b"]),
     # a phase in which the battery delivers exactly 0 A (the load is off and has no sleep current): the model is still stepped
     "src-iload-off": S(N("B", "Source", only=()), N("L", "ILoad", "B", phases=["b"], only=()), phases=["a", "b"]),
+    "src-rload": S(N("B", "Source", only=()), N("L", "RLoad", "B", only=())),
     "conv-iload": S(N("B", "Source", only=()), N("C", "Converter", "B", only=()), N("L", "ILoad", "C", only=())),
     "conv-iload-phases": S(N("B", "Source", only=()), N("C", "Converter", "B", phases=["a"], only=("iis",)), N("L", "ILoad", "C", only=()), phases=["a", "b", "c"]),
 }
